@@ -76,6 +76,11 @@ def run(chk, tier):
     chk.floor("R-EXTENT", "bulk operations on distances/memattr arrays", ne, 11)
     nl = extent.counted_loops(chk, P, list(P.units))
     chk.floor("R-EXTENT", "counted loops over fixed-size array fields", nl, 4)
+    chk.rule("R-SIZEOF", "a block operation on typed objects measures the object it operates on: in memcpy/memmove/memcmp/memset(dst, .., [n *] sizeof(X)) the measured size "
+             "equals the size of what dst and src point to (records and scalars of known size; byte buffers not judged)")
+    import sizeofrule
+    nso = sizeofrule.run(chk, P, list(P.units))
+    chk.floor("R-SIZEOF", "typed block operations", nso, 40)
     chk.decided += ['no local allocation of the duplication code is dropped on a path to a return',
                     'a copy records for each heap array the capacity it was actually allocated with',
                     "the duplication functions' failure paths release each allocation once (no use after release)",
